@@ -84,8 +84,19 @@ func ReadHeader(br *bufio.Reader) (*CarHeader, error) {
 	return &ch, nil
 }
 
+// encodable returns h with a nil root list replaced by an empty one: "no roots" is the empty array in a
+// CARv1 header, whereas a nil slice would be encoded as null, which is not a CARv1 header.
+func encodable(h *CarHeader) *CarHeader {
+	if h.Roots != nil {
+		return h
+	}
+	c := *h
+	c.Roots = []cid.Cid{}
+	return &c
+}
+
 func WriteHeader(h *CarHeader, w io.Writer) error {
-	hb, err := cbor.DumpObject(h)
+	hb, err := cbor.DumpObject(encodable(h))
 	if err != nil {
 		return err
 	}
@@ -94,7 +105,7 @@ func WriteHeader(h *CarHeader, w io.Writer) error {
 }
 
 func HeaderSize(h *CarHeader) (uint64, error) {
-	hb, err := cbor.DumpObject(h)
+	hb, err := cbor.DumpObject(encodable(h))
 	if err != nil {
 		return 0, err
 	}
